@@ -67,6 +67,8 @@ thread_local! {
     static CAPS: RefCell<Vec<(u32, u32, u32, usize)>> = const { RefCell::new(Vec::new()) };
     /// owners whose handle is borrowed by a running Cleaner::register call (it may run user code)
     static REG_BORROWS: RefCell<Vec<u32>> = const { RefCell::new(Vec::new()) };
+    /// did the last top-level operation end with a (caught) panic?
+    pub static LAST_PANICKED: Cell<bool> = const { Cell::new(false) };
     /// ids of node values that exist (created and not yet dropped)
     static LIVE: RefCell<std::collections::BTreeSet<u32>> = const { RefCell::new(std::collections::BTreeSet::new()) };
     static WORLD: Cell<*mut ()> = const { Cell::new(std::ptr::null_mut()) };
@@ -241,6 +243,15 @@ pub fn observe<P: Pad>(m: &mut Map<String, Value>) {
         let mut ad = Vec::new();
         for (o, v) in w.roots.iter() {
             if let Some(cc) = v.first() {
+                let base = rust_cc::verif_hooks::box_addr(cc);
+                let e = alloc::lookup(base);
+                let (blk, live) = e.map(|e| (e.blk as i64, e.live)).unwrap_or((0, false));
+                if !live {
+                    // the allocation behind a program-held Cc is gone (quarantined, poisoned): do not touch it
+                    sc.push(json!([o, -1, -1, false]));
+                    ad.push(json!([o, blk, 0, 0, false, false]));
+                    continue;
+                }
                 #[cfg(feature = "weak")]
                 let wc = cc.weak_count() as i64;
                 #[cfg(not(feature = "weak"))]
@@ -251,13 +262,10 @@ pub fn observe<P: Pad>(m: &mut Map<String, Value>) {
                 let fin = false;
                 sc.push(json!([o, cc.strong_count(), wc, fin]));
                 // address observations (C20): Deref / AsRef / Borrow agree, stable, aligned
-                let base = rust_cc::verif_hooks::box_addr(cc);
                 let a1 = &**cc as *const Node<P> as usize;
                 let a2 = <Cc<Node<P>> as AsRef<Node<P>>>::as_ref(cc) as *const Node<P> as usize;
                 let a3 = <Cc<Node<P>> as std::borrow::Borrow<Node<P>>>::borrow(cc) as *const Node<P> as usize;
                 let same = a1 == a2 && a2 == a3 && v.iter().take(8).chain(v.iter().rev().take(8)).all(|c| (&**c as *const Node<P> as usize) == a1);
-                let e = alloc::lookup(base);
-                let (blk, live) = e.map(|e| (e.blk as i64, e.live)).unwrap_or((0, false));
                 ad.push(json!([o, blk, (a1 as i64) - (base as i64), (a1 % std::mem::align_of::<Node<P>>()) as i64, same, live]));
             }
         }
@@ -375,6 +383,7 @@ fn run_op<P: Pad>(call: &Value, body: impl FnOnce() -> Value) {
     if depth == 0 {
         let r = catch_unwind(AssertUnwindSafe(body));
         DEPTH.with(|d| d.set(0));
+        LAST_PANICKED.with(|c| c.set(r.is_err()));
         match r {
             Ok(v) => emit(ret_event::<P>(&op, v, "")),
             Err(p) => {
@@ -413,7 +422,7 @@ pub fn valid<P: Pad>(call: &Value) -> bool {
     let (k, i) = (g_str(call, "k"), g_u32(call, "i") as usize);
     let borrowed = |x: u32| REG_BORROWS.with(|b| b.borrow().iter().filter(|y| **y == x).count());
     with_world::<P, _>(|w| {
-        let has_root = |x: u32| w.roots.get(&x).map_or(false, |v| !v.is_empty());
+        let has_root = |x: u32| w.roots.get(&x).map_or(false, |v| !v.is_empty() && alloc::lookup(rust_cc::verif_hooks::box_addr(&v[0])).map_or(false, |e| e.live));
         // a handle that can be given up: not the one a running register call borrows
         let has_free_root = |x: u32| w.roots.get(&x).map_or(0, |v| v.len()) > borrowed(x);
         let node_ok = |x: u32| unsafe { node_ref(w, x) }.is_some();
